@@ -13,8 +13,8 @@ import lib
 import l2
 import ctorgen
 
-PAR = 6
-os.environ.setdefault("GOMAXPROCS", "6")     # go build -p defaults to GOMAXPROCS: keep the shared machine usable
+PAR = 4
+os.environ.setdefault("GOMAXPROCS", "4")     # go build -p defaults to GOMAXPROCS: keep the shared machine usable
 ORT_SRC = lib.VERIF / "harness/go/cmd/ctorsig/ort.go.txt"
 
 DEF_RE = re.compile(r"(?im)^shoot:.*?\Wdef(ault)?=([^;\n]+)(;.*|\s*)$")
@@ -230,3 +230,93 @@ def status_from_errors(name, own, general):
     if any(v for v in own.values()):
         return 5, [e for v in own.values() for e in v][:3]
     return 0, []
+
+
+# ---------------------------------------------------------------- selection / output modes and histories
+MODE_WEIGHTS = [("type", 5), ("file", 3), ("filesep", 1), ("star", 1), ("each", 3)]
+
+
+def choose_mode(rng):
+    tot = sum(w for _, w in MODE_WEIGHTS)
+    r = rng.random() * tot
+    for m, w in MODE_WEIGHTS:
+        r -= w
+        if r < 0:
+            return m
+    return "type"
+
+
+def plan_commands(pkg, flags):
+    """the shoot command lines (argument lists) of one generation of the package in its mode:
+    type    one run  -type=A,B,C (one file per type)          file     one run -file=<src> (ONE merged file)
+    filesep one run  -file=<src> -sep (one file per type)     star     one run -type=* (merged; needs a go:generate line)
+    each    one run PER TYPE -type=A, then -type=B, ... (two go:generate lines / separate invocations)"""
+    names = pkg.get("order") or [sd["name"] for sd in pkg["structs"]]
+    mode = pkg.get("mode", "type")
+    base = ["new"] + list(flags)
+    if mode == "file":
+        return [base + ["-file=%s.go" % pkg["name"]]]
+    if mode == "filesep":
+        return [base + ["-file=%s.go" % pkg["name"], "-sep"]]
+    if mode == "star":
+        return [base + ["-type=*"]]
+    if mode == "each":
+        return [base + ["-type=" + n] for n in names]
+    return [base + ["-type=" + ",".join(names)]]
+
+
+def prepare_plan(rng, pkg, flags, modname, p_regen=0.25):
+    """fix mode / order / optional earlier version of the package; returns the list of actions
+    ("write", {file: text}) / ("shoot", args) to run in the package directory"""
+    names = [sd["name"] for sd in pkg["structs"]]
+    if not pkg.get("mode"):
+        pkg["mode"] = choose_mode(rng)
+    if not pkg.get("order"):
+        order = list(names)
+        if rng.random() < 0.5:
+            rng.shuffle(order)
+        pkg["order"] = order
+    if pkg["mode"] == "star":
+        pkg["generate_line"] = " ".join(["new"] + list(flags) + ["-type=*"])
+    if "pre" not in pkg:
+        pkg["pre"] = ctorgen.length_preserving_edit(pkg) if rng.random() < p_regen else None
+    cmds = plan_commands(pkg, flags)
+    pkg["cmds"] = cmds
+    pkg["args"] = cmds[-1]
+    actions = []
+    if pkg["pre"] is not None:
+        pre = dict(pkg["pre"])
+        for k in ("mode", "order", "generate_line", "name"):
+            if k in pkg:
+                pre[k] = pkg[k]
+        actions.append(("write", ctorgen.render_go(pre, modname)))
+        actions += [("shoot", c) for c in cmds]
+    actions.append(("write", ctorgen.render_go(pkg, modname)))
+    actions += [("shoot", c) for c in cmds]
+    return actions
+
+
+def describe_plan(pkg):
+    cmds = " && ".join("shoot " + " ".join(c) for c in pkg.get("cmds", []))
+    if pkg.get("pre") is not None:
+        return "(on the earlier version of the sources:) %s ; (edit the def= literals, same length) ; %s" % (cmds, cmds)
+    return cmds
+
+
+def run_plans(shoot, mod, plans, timeout=20):
+    """plans: [(package dir name, actions)]; every shoot runs the REAL binary (cmd/shoot/main.go included) in the
+    package directory.  Returns one dict per plan: rc (first non-zero), timed_out, out, err (of the failing or last run)"""
+    def one(plan):
+        d, actions = plan
+        last = {"rc": 0, "out": "", "err": "", "timed_out": False}
+        for kind, arg in actions:
+            if kind == "write":
+                l2.write_files(mod / d, arg)
+            else:
+                r = l2.run_shoot(shoot, mod / d, arg, timeout=timeout)
+                last = r
+                if r["rc"] != 0 or r["timed_out"]:
+                    return r
+        return last
+    with cf.ThreadPoolExecutor(max_workers=PAR) as ex:
+        return list(ex.map(one, plans))
